@@ -12,6 +12,8 @@
                          bytes at the same distance from the end of the source (per-byte closure form analysed for a generic index, or slices)
   C07.g byte predicate   every comparison between name and source is the standard eq_ignore_ascii_case or a closure whose result, evaluated for
                          all 65 536 byte pairs (E3), is ASCII case-insensitive equality
+  C07.h source positions every offset / index range into the input packet in rename_response_section is computed from the input only, never
+                         from the length of the output vector
   (argument validation on a fresh vector and commit-after-reparse are decided under C10.a)
 
 Not decided: which names match (label-aligned, case-insensitive comparison of run-time bytes), identity-rename equality.
@@ -325,6 +327,59 @@ def predicate_rule(ctx, facts, cfg):
         ctx.instance(rid, 'replace_raw compares with the standard eq_ignore_ascii_case (%d call site(s))' % std, ok=True, site=f['at'])
 
 
+def source_positions_rule(ctx, facts, cfg):
+    """C07.h: positions in the INPUT packet are computed from the input only.  In the renamer the output grows and shrinks independently
+    of the input (names are replaced and re-compressed), so a source offset handed to copy_with_replaced_name, or an index range into the
+    source packet, must not be derived from the length of the output vector."""
+    rid = 'C07.h'
+    f = facts.fn(RS)
+    if f is None:
+        ctx.missing(rid, RS)
+        return
+    defs = F.single_defs(f)
+    out_param = None
+    for i in range(1, f['arg_count'] + 1):
+        ty = f['locals'][i]
+        if ty.get('k') == 'ref' and ty.get('mut') and 'Vec<u8>' in ty.get('s', ''):
+            out_param = i
+    if out_param is None:
+        ctx.violation(rid, RS, 'no-output-param', 'no `&mut Vec<u8>` output parameter found in %s' % RS, kind='anchor-missing', config=cfg)
+        return
+
+    def from_output_len(op, depth=0):
+        for r in F.roots(f, defs, op):
+            if r[0] == 'call' and str(r[1]).endswith('Vec::<T, A>::len') and r[2]['args']:
+                rr = F.roots(f, defs, r[2]['args'][0])
+                if any(x[0] == 'param' and str(x[1]) == str(out_param) for x in rr):
+                    return True
+            if r[0] == 'call' and depth < 3 and ('ndex' in str(r[1])) and len(r[2]['args']) > 1:
+                if from_output_len(r[2]['args'][1], depth + 1):
+                    return True
+        return False
+    n = 0
+    for bi, b in F.blocks(f):
+        t = b['term']
+        if t['k'] != 'call':
+            continue
+        p = F.call_path(t) or ''
+        pos_ops = []
+        if p.endswith('Renamer::copy_with_replaced_name') and len(t['args']) > 2:
+            pos_ops.append(('source offset of the name to copy', t['args'][2]))
+        elif 'ndex' in p and len(t['args']) > 1:
+            rs0 = F.roots(f, defs, t['args'][0])
+            if any(r[0] == 'load' and any(fl[1] == 'packet' for fl in F.fields_of(r[1])) for r in rs0):
+                pos_ops.append(('index range into the source packet', t['args'][1]))
+        for what, op in pos_ops:
+            n += 1
+            bad = from_output_len(op)
+            ctx.instance(rid, 'rename_response_section: %s at %s is computed from the input only' % (what, t.get('at')), ok=not bad, site=t.get('at'))
+            if bad:
+                ctx.violation(rid, RS, 'source-position-from-output-length', 'rename_response_section: the %s at %s is derived from the length of the output vector: once a name has been replaced or '
+                              're-compressed the output no longer advances in step with the input, and the wrong input bytes are read' % (what, t.get('at')), site=t.get('at'), config=cfg)
+    if n < 6:
+        ctx.violation(rid, '<floor>', 'source positions', 'found %d source positions in rename_response_section, expected at least 6' % n, kind='below-floor')
+
+
 def default_arm_rule(ctx, facts, cfg):
     """the default arm copies exactly rdlen bytes starting behind the 10-byte header"""
     rid = 'C07.b'
@@ -355,6 +410,7 @@ def run(ctx):
             continue
         facts = ctx.facts(cfg)
         reemit.accounting_rule(ctx, facts, cfg, 'C07.a', RS, havoc=4)
+        reemit.rewrite_on_every_path_rule(ctx, facts, cfg, 'C07.a', RS, ('Renamer::copy_with_replaced_name', 'Compress::copy_compressed_name_with_base_offset'), floor=3)
         reemit.dispatch_rule(ctx, facts, cfg, 'C07.b', RS, 'renaming')
         default_arm_rule(ctx, facts, cfg)
         reemit.cursor_rule(ctx, facts, cfg, 'C07.c', [TOP])
@@ -363,4 +419,5 @@ def run(ctx):
         boundary_rule(ctx, facts, cfg)
         window_rule(ctx, facts, cfg)
         predicate_rule(ctx, facts, cfg)
+        source_positions_rule(ctx, facts, cfg)
     ctx.trust('analysis/interp.py contracts; helpers above the size threshold are havocked for the accounting (only facts local to rename_response_section are used)')
